@@ -1,4 +1,5 @@
-import SqlProofs.IdentShape.Check
+import SqlProofs.IdentShape.CheckCore
+import SqlModel.Grouping
 /-!
 # SqlProofs.IdentShape.Skeletons — the finite family of statement skeletons of property C12
 
